@@ -7,6 +7,7 @@ import numpy as np
 from ..common import Report, pmap
 from ..e1 import E1Sink, gate, replay_case, vacuity_floor
 from ..explore import explore
+from ..optsweep import sweep_jobs
 from .. import problems as P
 
 PID = "C01"
@@ -91,6 +92,9 @@ def run(ctx):
     # (d) long runs pressing against the faces
     lg = [job(D, g, "in", "det", "sphere_out", None, s, opts={"tol_mesh": 1e-6, "max_fun_evals": 150}) for D in Ds for g in ("lin", "log", "mixed", "log2", "lin2") if not (g == "mixed" and D == 1) for s in seeds]
     st = explore(lg, ["ans"], 0, sink, stats=st, name="long/faces")
+    # (f) option variants
+    sw = sweep_jobs(lambda D, m, o: job(D, "log2" if D == 1 else "lin", "ub", m, "sphere_out", None, seeds[0], opts=o), q)
+    st = explore(sw, ["ans", "noise"], 0, sink, stats=st, name="option-variants")
     sink.finish_cov(st)
     # (e) E3: complete table of the search-bound rounding
     lat = [-np.inf, -5.0, -2.5, -1.0 - 2.0**-11, -1.0, -1.0 + 2.0**-11, -0.3, -1e-7, 0.0]
